@@ -144,6 +144,31 @@ def _work(item):
         except BaseException as e:  # noqa: BLE001
             if common.classify_exc(e) != "SemanticError":
                 out.append(({"kind": "keyword_axis_clash_wrong_error", "exc": common.classify_exc(e)}, {"desc": desc2, "message": str(e)[:200]}))
+    # 2c. a keyword-only parameter WITHOUT a default is a parameter of the function all the same: forwarded verbatim, never a size
+    got = {}
+    if c.family == "reduce":
+        def required_kw(x, axis, *, factor):
+            got["factor"] = factor
+            return np.asarray(np.sum(x, axis=axis) * factor)
+        fn_req = einx.numpy.adapt_numpylike_reduce(required_kw)
+        base_val = gencalls.evaluate(gencalls.Call("reduce", "sum", c.ins, c.outs, c.arrays, desc=c.desc), plan)[0]
+    else:
+        def required_kw(*xs, factor):
+            got["factor"] = factor
+            r = xs[0] * factor
+            for y in xs[1:]:
+                r = r + y
+            return np.asarray(r)
+        fn_req = einx.numpy.adapt_numpylike_elementwise(required_kw)
+        base_val = None
+    fv = rng.choice([2, 3, -1])
+    try:
+        r = common.with_alarm(30, fn_req, c.desc, *[np.array(a) for a in c.arrays], **kw, factor=fv)
+        if got.get("factor") != fv or (base_val is not None and not gencalls.matches(np.asarray(base_val * fv), r)):
+            out.append(({"kind": "keyword_only_not_forwarded_verbatim", "required": True}, {"call": c.record(), "received": str(got), "given": fv}))
+    except BaseException as e:  # noqa: BLE001
+        out.append(({"kind": "adapter_call_fails", "step": "required_keyword_only", "family": c.family, "exc": common.classify_exc(e)},
+                    {"call": c.record(), "message": str(e)[:300]}))
     # 3. wrong outputs make the call fail
     # 2b. a keyword-only option whose value is None is a value like any other
     log.clear()
